@@ -77,26 +77,26 @@ const (
 // Task models one OS process: a goroutine of which the scheduler resumes
 // exactly one at a time.
 type Task struct {
-	ID      int
-	Name    string
-	sim     *Sim
-	fn      func(*Task)
-	resume  chan struct{}
-	state   taskState
-	Pending Call
-	Steps   int // number of yield points reached so far (1-based index of the pending call)
-	OpIndex int // set by the harness: current op instance
-	quiet   int
-	Killed  bool
-	Crashed bool // finished through a kill
-	Panic   interface{}
-	PanicStack string
-	files   []*FileState
-	nameCtr uint64
-	mapCtr  uint64
-	nowCtr  uint64
-	Data    interface{} // harness slot
-	TimeFaultSteps int // steps of this task executed under a time fault (slow window or clock jump)
+	ID             int
+	Name           string
+	sim            *Sim
+	fn             func(*Task)
+	resume         chan struct{}
+	state          taskState
+	Pending        Call
+	Steps          int // number of yield points reached so far (1-based index of the pending call)
+	OpIndex        int // set by the harness: current op instance
+	quiet          int
+	Killed         bool
+	Crashed        bool // finished through a kill
+	Panic          interface{}
+	PanicStack     string
+	files          []*FileState
+	nameCtr        uint64
+	mapCtr         uint64
+	nowCtr         uint64
+	Data           interface{} // harness slot
+	TimeFaultSteps int         // steps of this task executed under a time fault (slow window or clock jump)
 }
 
 // FileState tracks an open descriptor for crash handling.
@@ -115,20 +115,20 @@ type Strategy interface {
 }
 
 type Sim struct {
-	Seed    uint64
-	FS      Backend
-	Mem     *MemFS // == FS when simulated, nil in pass-through mode
-	Now     int64  // simulated ns
-	Tasks   []*Task
-	cur     *Task
-	parkCh  chan *Task
-	Log     []Event
-	KeepLog bool
-	Hash    uint64 // running hash of the event log
-	Steps   int
+	Seed     uint64
+	FS       Backend
+	Mem      *MemFS // == FS when simulated, nil in pass-through mode
+	Now      int64  // simulated ns
+	Tasks    []*Task
+	cur      *Task
+	parkCh   chan *Task
+	Log      []Event
+	KeepLog  bool
+	Hash     uint64 // running hash of the event log
+	Steps    int
 	MaxSteps int
-	Budget  bool // step budget exceeded
-	Faults  []Fault
+	Budget   bool // step budget exceeded
+	Faults   []Fault
 	// OnEvent is invoked (in quiet mode, inside the running task) after
 	// every executed shim call (ev.Mut tells mutating ones apart).
 	OnEvent func(ev *Event)
@@ -138,16 +138,16 @@ type Sim struct {
 	Sched []Segment
 	// LocalYieldP: probability that a descriptor-local call is a real
 	// decision point.
-	Stop bool // set by monitors: abort the run
-	Counters map[string]int
-	slow map[int][2]int64 // task -> (factor, untilStep)
-	eventCount   int
+	Stop       bool // set by monitors: abort the run
+	Counters   map[string]int
+	slow       map[int][2]int64 // task -> (factor, untilStep)
+	eventCount int
 	// TimeFaultEvents counts executed steps that advanced the clock
 	// abnormally (slow window or clock jump), by any task: the clock is
 	// global, so every call in flight meanwhile has experienced the delay.
 	TimeFaultEvents int
-	schedNameCtr uint64
-	CallerPkg string
+	schedNameCtr    uint64
+	CallerPkg       string
 }
 
 // G is the simulation the shims talk to. Nil means "no simulation": shim
